@@ -54,7 +54,9 @@ CLAIMS.update({
          "Format 4 PAN binding is partial (2^-64-type coincidence not excluded)."),
  "C12": ("Theorems: every successful wrap output is printable ASCII, <= 9999, its 4-digit length field equals its length, block-multiple total and header section, block count field = blocks "
          "+ at most one trailing pad block <= 99, remainder = upper-case hex of block-multiple key data + MAC of the version's size; pad-block shape incl. the full-size case; header string / dump "
-         "re-load to an equal header from ANY prior state (premise: total <= 9999, boundary witness kept); limits iff. Correspondence incl. every residue, 251/252, 97..100 blocks, near 9999.", TECH,
+         "re-load to an equal header from ANY prior state (premise: total <= 9999, boundary witness kept); limits iff. The whole MutableMapping API of Blocks (update, setdefault, pop, popitem, clear ...) is modelled "
+         "(Model/BlocksApi.v): every object reachable through any API sequence satisfies the invariant the framing theorems start from, with exact error characterisations. Correspondence incl. every residue, "
+         "251/252, 97..100 blocks, near 9999, hostile ids through every entry point, random API sequences against the extracted api_run.", TECH,
          "Caller blocks must not use a pad id (pb/Pb/pB/PB): documented premise with a necessity witness."),
  "C13": ("Theorems: exact length formula of a successful wrap in terms of the masked length only; equal lengths for all keys within the effective mask (24/24/32 for T/D/A, else the given mask); "
          "encrypted section in (2+m, 2+m+block]; number of random bytes drawn. Correspondence: versions x algorithms x masks -8..64 x key lengths 0..64 on the implementation, sample re-run on the model.", TECH, ""),
